@@ -1282,6 +1282,9 @@ func expInput(p LeafParam) string {
 	if p.Key.IsGroup() {
 		if p.NamedSlice && !IsIface(p.Key.T) && !isVal(p.Key.T) && !isAlt(p.Key.T) {
 			t = fmt.Sprintf("sim.KS%d", p.Key.T)
+			if p.NamedAlt {
+				t = fmt.Sprintf("sim.KT%d", p.Key.T)
+			}
 		} else {
 			t = "[]" + t
 		}
@@ -1308,6 +1311,9 @@ func expOutputs(f *Func) []string {
 			t := TypeName(k.T)
 			if k.IsGroup() && f.Role == RoleDec {
 				t = "[]" + t
+				if r.NamedRes > 0 && k.T < NumK && !isVal(k.T) && !isAlt(k.T) {
+					t = fmt.Sprintf("sim.K%s%d", map[int]string{1: "S", 2: "T"}[r.NamedRes], k.T)
+				}
 			}
 			var toks []string
 			if k.Name != "" {
